@@ -604,5 +604,58 @@ theorem dynHash_lt {vhash : V → Res Int} {vh : V → Nat} (hv : VHashOK vhash 
   · rw [U64_eq]; exact Nat.mod_lt _ (by decide)
   · obtain ⟨x, _, h2⟩ := hv kv.2; exact toU64_lt h2
 
+
+/-! ### the reference returned by `put`, and `with_count` -/
+
+/-- the value a pure put writes -/
+def pureNew (onEmpty : Unit → V) (onFound : V → V) : Option V → V
+  | some p => onFound p
+  | none => onEmpty ()
+
+/-- `put` with its returned reference = `put`, paired with the value written for the key's class -/
+theorem putRet_eq (C : Consistent hash eq) (t : Table K V) (k : K) (onEmpty : Unit → V) (onFound : V → V) :
+    putRet hash eq t k onEmpty onFound =
+      match put hash eq t k onEmpty onFound with
+      | .error e => .error e
+      | .ok t' => .ok (t', pureNew onEmpty onFound (lookB C t k)) := by
+  unfold putRet put putLocated
+  rw [locate_eq C]
+  cases hg : bget t.buckets (C.h k) with
+  | none => simp [locP, lookB, hg, tryPutLocatedRet, tryPutLocated, pureNew]
+  | some b =>
+    cases hs : scanP C.e k b with
+    | none =>
+      simp [locP, lookB, hg, hs, scanP_none hs, tryPutLocatedRet, tryPutLocated, pureNew]
+    | some i =>
+      obtain ⟨k0, p, hi, _, hf⟩ := scanP_some hs
+      have hil : i < b.length := (List.getElem?_eq_some_iff.1 hi).1
+      have hbi : b[i] = (k0, p) := by
+        have := List.getElem?_eq_getElem hil; rw [hi] at this; exact (Option.some.inj this).symm
+      simp [locP, lookB, hg, hs, hf, hi, tryPutLocatedRet, tryPutLocated, pureNew, hil, hbi]
+
+/-- running class counts: the specification of `with_count` over an association function of counts -/
+def wcSpec (C : Consistent hash eq) (f : K → Nat) : List K → List (K × Nat)
+  | [] => []
+  | k :: r => (k, f k + 1) :: wcSpec C (fun k' => if C.e k' k then f k + 1 else f k') r
+
+theorem withCount_spec (C : Consistent hash eq) {counter : Table K Nat} (hI : Inv C counter) (ks : List K) :
+    withCount hash eq counter (ks.map .ok) =
+      (wcSpec C (fun k => (lookB C counter k).getD 0) ks).map .ok := by
+  induction ks generalizing counter with
+  | nil => rfl
+  | cons k r ih =>
+    obtain ⟨t1, h1, h2, _, h4⟩ := (tryPut_spec C hI k (fun _ => .ok 1) (fun v => .ok (v + 1))).2
+      (pureNew (fun _ => 1) (fun v => v + 1) (lookB C counter k)) (by cases lookB C counter k <;> rfl)
+    have hput : put hash eq counter k (fun _ => 1) (fun v => v + 1) = .ok t1 := by rw [put_eq_tryPut]; exact h1
+    simp only [List.map_cons, withCount, putRet_eq C, hput, wcSpec]
+    have hnew : pureNew (fun _ => 1) (fun v => v + 1) (lookB C counter k) = (lookB C counter k).getD 0 + 1 := by
+      cases lookB C counter k <;> simp [pureNew]
+    rw [ih h2, hnew]
+    congr 2
+    congr 1
+    funext k'
+    rw [h4, hnew]
+    cases C.e k' k <;> simp
+
 end
 end XrayModel.HM
